@@ -36,6 +36,11 @@ func fixURLHost(u *url.URL) {
 		return
 	}
 	i := strings.IndexRune(u.Path, '/')
+	if i < 0 {
+		// bare host like 't.me': the whole path is the host
+		u.Host, u.Path = u.Path, ""
+		return
+	}
 	u.Host = u.Path[:i]
 	u.Path = u.Path[i:]
 }
